@@ -750,6 +750,14 @@ def _tally(dist, recs, chain):
         dist["modes"][g["mode"]] = dist["modes"].get(g["mode"], 0) + 1
         for pr in (g.get("profiles") or ["mixed"] * len(g["phases"])):
             dist["profiles"][pr] = dist["profiles"].get(pr, 0) + 1
+        if g.get("multi"):
+            m = g["multi"]
+            key = "%s+%s open2@%s/%d writes-via-second=%s end=%s-via-%s%s%s" % (
+                g["mode"], m["mode2"], m["open2"], len(g["phases"]), "second" in m.get("via", []), rec["end"],
+                m.get("end_via"), " close2@%s" % m["close2_at"] if "close2_at" in m else "",
+                " (second open refused)" if rec["out"].get("open2_error") else "")
+            dist.setdefault("two_file_objects", {})
+            dist["two_file_objects"][key] = dist["two_file_objects"].get(key, 0) + 1
         fc = "%s/%s" % (g.get("compression"), g["mode"])
         dist["file_compression_by_mode"][fc] = dist["file_compression_by_mode"].get(fc, 0) + 1
         for op in rec["out"]["ops"]:
@@ -1023,10 +1031,17 @@ def oracle(ctx, broken, hints):
         own.append(c)
         kills += len(c["gens"])
     chains += own
+    fault_stat = {}
     if not failures or broken:
         allrecs = _pmap(lambda ic: run_chain(ctx, ic[1], "orc%d" % ic[0]), list(enumerate(chains)))
         for chain, recs in zip(chains, allrecs):
             for i, rec in enumerate(recs):
+                if rec["spec"].get("fsize"):
+                    o = rec["out"]
+                    k = "%s:%s" % (rec["end"], "raised(no promise) " + o["end_error"] if o.get("end_error") else
+                                   "no-walkable-state(no promise)" if o.get("final_walk") is None else
+                                   "returned(checked)")
+                    fault_stat[k] = fault_stat.get(k, 0) + 1
                 evaluations += 1
                 f = check_generation(chain, i, rec)
                 if f is not None:
@@ -1036,7 +1051,7 @@ def oracle(ctx, broken, hints):
     neg = negative_control(ctx, own[n_pre:][:ctx.budget(4, 24)])
     failures.sort(key=lambda f: (len(f.input["gens"]), sum(sum(g["phases"]) for g in f.input["gens"])))
     return {"evaluations": evaluations, "failures": failures, "negative_control": neg,
-            "own_kills": kills}
+            "own_kills": kills, "end_calls_under_size_limit": fault_stat}
 
 
 def matches_known(entry, failure):
